@@ -217,3 +217,57 @@ def telegram_handling_with_real_descriptions_is_total(desc):
         return
     H.cover("handled")
     H.check("C13:never-raises", True)
+
+
+# ---------------------------------------------------------------------------------------------------------------
+# Without --rx/--tx the snoop tool takes the CAN IDs from the diagnostic layer (get_can_receive_id / get_can_send_id on
+# the layer's communication parameters after inheritance) and builds its reassembler for them.  The telegrams it then
+# reports are those sent on the IDs of the closest definition.
+from contracts import hierarchy as HY  # noqa: E402
+from odxtools.complexcomparam import ComplexComparam  # noqa: E402
+from odxtools.diaglayers.hierarchyelement import HierarchyElement  # noqa: E402
+from odxtools.nameditemlist import NamedItemList  # noqa: E402
+
+_ID_TABLE = {"pr": ("123", "456"), "fg": ("1697", "1705"), "bv": ("2016", "2024")}
+
+
+@harness(props=["C12", "C15"], strength="B", family=lambda t, s: [{"shape": "bv-fg+pr"}],
+         bound="a base variant with a protocol and a functional group as parents; per layer the presence of a "
+         "CP_UniqueRespIdTable definition is symbolic; one single frame per candidate ID",
+         functions=[HierarchyElement._compute_available_commmunication_parameters, HierarchyElement.get_can_receive_id,
+                    HierarchyElement.get_can_send_id, snoop.init_verbose_state_machine,
+                    IsoTpStateMachine.decode_rx_frame],
+         covers=["ids"], assumes=["A-bitstruct", "A-lib"], crosscheck=False)
+def reassembler_listens_on_the_ids_of_the_closest_definition(shape):
+    """the reassembler the snoop tool derives from a description reports the telegrams sent on the CAN IDs of the
+    layer's own response-ID table, else of its highest-priority parent defining one - and nothing sent on the IDs of
+    an overridden definition"""
+    layers = {name: HY.GhostLayer(name, kind) for name, kind, parents in HY.CP_SHAPES[shape]}
+    spec = HY.mk_spec("CP_UniqueRespIdTable", None, ComplexComparam)
+    spec.subparams = NamedItemList([HY.mk_spec("CP_CanPhysReqId", "0"), HY.mk_spec("CP_CanRespUSDTId", "0")])
+    defines = {}
+    for name, kind, parents in HY.CP_SHAPES[shape]:
+        defines[name] = H.bool(f"{name}_defines_the_response_id_table")
+        if defines[name]:
+            layers[name].diag_layer_raw.comparam_refs.append(HY.mk_instance(spec, "ID_T", list(_ID_TABLE[name]), None))
+        for p in parents:
+            layers[name].diag_layer_raw.parent_refs.append(HY.GhostParentRef(layers[p], []))
+    bv = layers["bv"]
+    bv._comparam_refs = NamedItemList(bv._compute_available_commmunication_parameters())
+    rx, tx = bv.get_can_receive_id(), bv.get_can_send_id()
+    winner = "bv" if defines["bv"] else "fg" if defines["fg"] else "pr" if defines["pr"] else None
+    H.check("C12,C15:ids-are-those-of-the-closest-definition",
+            (rx, tx) == ((None, None) if winner is None else (int(_ID_TABLE[winner][0]), int(_ID_TABLE[winner][1]))))
+    if rx is None or tx is None:
+        return
+    H.cover("ids")
+    sm = snoop.init_verbose_state_machine(IsoTpStateMachine, [rx, tx])  # (as passive_main does)
+    payload = H.bytes("payload", 1, 7)
+    for name in ("pr", "fg", "bv"):
+        for can_id in _ID_TABLE[name]:
+            out = list(sm.decode_rx_frame(int(can_id), bytes([len(payload)]) + bytes(payload)))
+            if name == winner:
+                H.check("C12:telegrams-on-the-ids-of-the-description-are-reported",
+                        H.And(len(out) == 1, all([H.eq(o[1], payload) for o in out])))
+            else:
+                H.check("C12:frames-of-unrelated-ids-are-ignored", len(out) == 0)
